@@ -35,6 +35,7 @@ func c10Gen(rt *rapid.T) wProg {
 			p.Cfg.Bkg = append(p.Cfg.Bkg, s)
 		}
 	}
+	gGrpc(rt, &p, 15)
 	first := map[int]int{} // user -> first session slot
 	for s, u := range p.Sess {
 		if _, ok := first[u]; !ok {
